@@ -28,11 +28,12 @@ ASSUMPTIONS = ['forward-mode kernels are correct up to 2D coefficients (checked 
                'small-scope hypothesis beyond depth/D/P bounds; base points from a finite menu']
 
 CURVES = {'quick': [(1, 1), (2, 1), (3, 2)], 'thorough': [(1, 1), (2, 1), (3, 2), (4, 3)]}
+CURVES_D2_QUICK = [(2, 1), (3, 2)]       # depth-2 programs in the quick tier
 CHUNK = 40
 
 
 def bounds(tier):
-    return {'depth_full_alphabet': 1 if tier == 'quick' else 2, 'depth_core': 2 if tier == 'quick' else 3,
+    return {'depth_full_alphabet': 2, 'depth_core': 2 if tier == 'quick' else 3,
             'curves_DP': CURVES[tier], 'basis_seeds_depth1': tier == 'thorough', 'n': PR.N, 'NX': PR.NX}
 
 
@@ -53,15 +54,9 @@ def enumerate_programs(tier):
     d1_ok = [p for p in PR.depth1() if PR.in_domain(p, PR.POINTS[:1]) is None]
     core = set(core_names())
     skipped = 0
-    if tier == 'quick':
-        names2 = core
-    else:
-        names2 = None
     d2 = []
     for p in d1_ok:
-        if tier == 'quick' and p[0][0] not in core:
-            continue
-        for q in PR.extend(p, names=names2):
+        for q in PR.extend(p, names=None):
             d2.append(q)
     d3 = []
     if tier == 'thorough':
@@ -95,7 +90,7 @@ def run_program(prog, depth, tier, seed, curves=None, modes=None):
     res = {'evals': 0, 'keys': [], 'counters': {}, 'fails': [], 'worst': 0.0}
     d1only = any('D1only' in PR.TEMPLATES[i[0]].tags for i in prog)
     classes = []
-    for (D, P) in (curves or CURVES[tier]):
+    for (D, P) in (curves or (CURVES_D2_QUICK if (tier == 'quick' and depth == 2) else CURVES[tier])):
         if d1only and D > 1:
             continue
         res['evals'] += 1
